@@ -45,14 +45,14 @@ CLAIMS["C19"] = dict(
 
 CLAIMS["C02"] = dict(
     category="proof",
-    text="Both move-application entry points are under contract against the rule-prescribed successor s_apply for every placement satisfying the occupancy invariant and every move obeying the movement rules (a superset of the legal moves): placement, side, rights, en-passant band (upper and lower bound, the latter with the flood-fill legality spec), hash per key coordinate, monotone material — all with a SYMBOLIC opponent king; the check/pin clause per fixed opponent-king square (8 squares x 2 entry points per quick run, seed-rotated; all 128 x 2 in the thorough tier). make_move is checked for any prior content of the output board; both entry points are tied to the same spec and additionally compared on the en-passant field.",
+    text="Both move-application entry points are under contract against the rule-prescribed successor s_apply for every placement satisfying the occupancy invariant and every move obeying the movement rules (a superset of the legal moves): placement, side, rights, en-passant band (upper and lower bound, the latter with the flood-fill legality spec), hash per key coordinate, monotone material — all with a SYMBOLIC opponent king; the check/pin clause per fixed opponent-king square (4 squares x 2 entry points per quick run — central and home squares plus one seed-rotated; all 128 x 2 in the thorough tier). make_move is checked for any prior content of the output board; both entry points are tied to the same spec and additionally compared on the en-passant field.",
     design_ref="DESIGN.md §6 C02",
     note=TRUST + "quick tier: placement/hash/ep obligations replace get_rook_rays/get_bishop_rays by EMPTY (frame assumption: the slider scan writes only checkers/pinned; the thorough tier discharges it with a havoc abstraction of the rays); table accessors replaced by closed forms that C16 obligations prove equal to them (run as part of this check); the check/pin clause covers a subset of king squares in the quick tier.",
     technique="Kani/CBMC contracts on Board::make_move_new / make_move against an independent successor spec; hash checked coordinate-wise through a probe stand-in for the key table; per-king-square case split for the slider scan loop",
 )
 CLAIMS["C03"] = dict(
     category="proof",
-    text="update_pin_info is proved equal to an independent eight-ray-walk specification of checkers and (raw) pinned for every placement, per fixed king square (16 seed-rotated squares per quick run, all 128 in thorough); the incremental computation at the tail of make_move/make_move_new is proved equal to the same spec on the result position (C02 obligations O2.1b/O2.2b, included here); xor keeps pieces/colour/combined in lock-step and toggles exactly one key; piece_on/color_on/king_square and every accessor agree with the bitboards; derived == compares exactly the position-determined fields, so a position reached incrementally equals the one built from scratch.",
+    text="update_pin_info is proved equal to an independent eight-ray-walk specification of checkers and (raw) pinned for every placement, per fixed king square (8 squares per quick run — central, home and corner squares plus one seed-rotated; all 128 in thorough); the incremental computation at the tail of make_move/make_move_new is proved equal to the same spec on the result position (C02 obligations O2.1b/O2.2b, included here); xor keeps pieces/colour/combined in lock-step and toggles exactly one key; piece_on/color_on/king_square and every accessor agree with the bitboards; derived == compares exactly the position-determined fields, so a position reached incrementally equals the one built from scratch.",
     design_ref="DESIGN.md §6 C03",
     note=TRUST + "table accessors replaced by closed forms proved equal to them (C16 obligations, run as part of this check); quick tier covers a subset of king squares for the loop obligations; the FEN text layer of the statement is C06.",
     technique="Kani/CBMC contracts on Board::update_pin_info, xor, piece_on, color_on and the make_move tails against an eight-ray-walk spec; per-king-square case split with loop unwinding assertions",
@@ -75,7 +75,7 @@ CLAIMS["C13"] = dict(
 )
 CLAIMS["C18"] = dict(
     category="proof",
-    text="null_move is proved (Kani, symbolic king, every placement, with and without en-passant state) to be refused exactly when the mover's king is attacked (independent flood-fill attack spec, tied to the checkers field by a code-independent lemma) and otherwise to return the same placement, rights and hash field, the other side to move, no en-passant state and check/pin information equal to the from-scratch spec of the result; the callee update_pin_info is used through its contract, which is proved per king square (16 per quick run, all 128 in thorough).",
+    text="null_move is proved (Kani, symbolic king, every placement, with and without en-passant state) to be refused exactly when the mover's king is attacked (independent flood-fill attack spec, tied to the checkers field by a code-independent lemma) and otherwise to return the same placement, rights and hash field, the other side to move, no en-passant state and check/pin information equal to the from-scratch spec of the result; the callee update_pin_info is used through its contract, which is proved per king square under C03 (8 per quick run, all 128 in thorough; re-run here in the thorough tier).",
     design_ref="DESIGN.md §6 C18",
     note=TRUST + "modular: update_pin_info replaced by its contract O3.1 (stand-in upi_spec), O3.1 proved for a subset of king squares in the quick tier; table accessors replaced by closed forms proved equal to them (C16 obligations, run as part of this check).",
     technique="Kani/CBMC contract on Board::null_move with the callee replaced by its separately proved contract",
@@ -97,7 +97,7 @@ CLAIMS["C09"] = dict(
 
 CLAIMS["C07"] = dict(
     category="proof",
-    text="Builder half, complete: Board::try_from on a FULLY symbolic builder (13 contents on each of 64 squares, any side/rights/en-passant file, crowded boards included) never panics or reads out of bounds, succeeds exactly when the gatekeeper specification holds and then reproduces the builder's placement, side, rights, en-passant state, check/pin information and hash; is_sane is proved equal to that specification for every board the API can construct; every valid chess position satisfies it (code-independent lemma); every accepted board leaves room in the fixed-capacity move list (men + 2 <= real capacity) — the obligation that exposed the >16-men defect, repaired by a fix: commit. Text half, bounded: coordinate/square parsers total on short UTF-8 text (C13 obligations).",
+    text="Builder half: Board::try_from on a symbolic builder (quick tier: any of 13 contents on each of the 32 squares of ranks 1,2,7,8 — bounded, crowded boards included; thorough tier: all 64 squares, complete) with any side/rights/en-passant file never panics or reads out of bounds, succeeds exactly when the gatekeeper specification holds and then reproduces the builder's placement, side, rights, en-passant state, check/pin information and hash; is_sane is proved equal to that specification for every board the API can construct; every valid chess position satisfies it (code-independent lemma); every accepted board leaves room in the fixed-capacity move list (men + 2 <= real capacity) — the obligation that exposed the >16-men defect, repaired by a fix: commit. Text half, bounded: coordinate/square parsers total on short UTF-8 text (C13 obligations).",
     design_ref="DESIGN.md §6 C07",
     note=TRUST + "modular: update_pin_info / is_sane used through their contracts inside try_from (O3.1 per king square — subset in the quick tier — and O5.1); FEN text parsing (BoardBuilder::from_str: split, contains, String) is NOT under contract — std String/Vec machinery is out of reach of CBMC within the budget and str is out of reach of Verus; safety of move generation on accepted boards rests on the capacity obligation O7.4 plus the move-list slot bound argued in DESIGN.md (one slot per man + two en-passant slots), not yet mechanised.",
     technique="Kani/CBMC contract on TryFrom<&BoardBuilder> over a fully symbolic builder with callees replaced by their proved contracts; exact functional contract on is_sane; capacity obligation against the real ArrayVec type",
@@ -151,7 +151,7 @@ CLAIMS["C17"] = dict(
 
 CLAIMS["C06"] = dict(
     category="proof",
-    text="Rendering half. Display::fmt of the builder is under contract (Kani, bytes captured in a fixed sink) for every side to move and en-passant file — the field is '-' or the passed-over square on rank 3/6 as the FEN standard specifies (the obligation that exposed the rank-4/5 defect, repaired by a fix: commit) — and for all 16 castle-right combinations (KQkq subset or '-'), six well-formed fields. The en-passant STATE behind the field is covered by O2.1e/O2.1a (recorded only after a double push beside an enemy pawn, always when a legal capture exists) in C02. Structured half of the round trip: builder -> board reproduces placement, side, rights, en-passant, check/pin and hash for a fully symbolic builder (O7.1, C07), and from-scratch check/pin data equal the incrementally maintained data (O3.1 here, O2.1b in C03), which is what makes a position reached by play == the re-parsed one. Thorough tier adds the placement field with one symbolic man and Board -> builder.",
+    text="Rendering half. Display::fmt of the builder is under contract (Kani, bytes captured in a fixed sink) for every side to move and en-passant file — the field is '-' or the passed-over square on rank 3/6 as the FEN standard specifies (the obligation that exposed the rank-4/5 defect, repaired by a fix: commit) — and for the castle-right combinations (KQkq subset or '-'; 6 of the 16 combinations per quick run, seed-rotated, all 16 in thorough), six well-formed fields. The en-passant STATE behind the field is covered by O2.1e/O2.1a (recorded only after a double push beside an enemy pawn, always when a legal capture exists) in C02. Structured half of the round trip: builder -> board reproduces placement, side, rights, en-passant, check/pin and hash for a fully symbolic builder (O7.1, C07), and from-scratch check/pin data equal the incrementally maintained data (O3.1 here, O2.1b in C03), which is what makes a position reached by play == the re-parsed one. Thorough tier adds the placement field with one symbolic man and Board -> builder.",
     design_ref="DESIGN.md §6 C06",
     note=TRUST + "NOT under contract: FEN text PARSING (BoardBuilder::from_str — str::split / contains / String are out of reach of CBMC within a check's time budget and of Verus) and the placement field for more than one man (Piece::to_string/format!/to_uppercase); so 'parse(render(x)) == x' is decided for the structured conversions only, and reading a standard writer's FEN rests on the parser using only the FILE of the en-passant field (by inspection).",
     technique="Kani/CBMC byte-exact render contracts on Display::fmt through a fixed sink (en-passant, side, castling fields) + structured round-trip contracts on the builder conversions + check/pin from-scratch obligations",
